@@ -103,6 +103,7 @@ class Trace:
             self.seen_explored = True
             self.event('EE %d' % (1 if s._discard_exploration else 0))
             self.stats['ee'] += 1
+            self.stats['empty_removed'] += len(self.bound_obj) - len(s.bounds)
             self.snapshot(s, 'end_exploration')
 
     def fail(self, prop, what, **detail):
@@ -541,7 +542,9 @@ def run_traced(cfg, max_batches=400):
                 neff_ok = bool(s.n_eff >= cfg['n_eff'])
             tr.lines.append('ENDRUN %d %d %d' % (1 if timeout == 0.0 else 0, 1 if neff_ok else 0, 1 if done else 0))
             k += max(1, (int(s.n_like) - nl0) // max(1, cfg['n_batch']))
-            tr.returns.append((nl0, int(s.n_like), bool(done), lim, timeout))
+            with np.errstate(all='ignore'):
+                pred = bool(s.explored and np.all(np.asarray(s.shell_n) >= cfg['n_shell']) and s.n_eff >= cfg['n_eff'])
+            tr.returns.append((nl0, int(s.n_like), bool(done), lim, timeout, pred))
             while resume_at and resume_at[0] <= k and path is not None and os.path.exists(path):
                 resume_at.pop(0)
                 old_bids = [tr.bid(b) for b in s.bounds]
